@@ -135,6 +135,7 @@ let parse_op toks : string * op * string =
     let (es, rest) = bs (int_of_string nb) rest in
     let (ipbs, rest) = take_list rest in
     ("calc", OCalc (z u, es, ipbs), L.hd rest)
+  | "handover" :: b :: d :: dint :: res :: [] -> ("handover", OHandOver (z b, z d, z dint), res)
   | "setprice" :: a :: "-" :: res :: [] -> ("setprice", OSetPrice (z a, None), res)
   | "setprice" :: a :: p :: res :: [] -> ("setprice", OSetPrice (z a, Some (z p)), res)
   | _ -> failwith ("bad op: " ^ S.concat " " toks)
@@ -152,6 +153,7 @@ let run (path : string) =
   let step = ref 0 in
   let dead = ref false in               (* model and implementation diverged: stop diffing this case *)
   let interesting = ref false in
+  let tainted = ref false in            (* a message of known-finding class 2 succeeded earlier in this case *)
   let sig_ = Buffer.create 1024 in
   let end_case () =
     if !case <> "" then begin
@@ -172,30 +174,52 @@ let run (path : string) =
     end in
   let check_props kind o res =
     let obs = !cur_obs and pre = !pre_obs in
+    if res = "ok" && kf_C08_2 pre o then begin tainted := true; bump "kf_C08_2:hand_over_deletes_live_lend_record" end;
+    if kind = "handover" && res = "ok" then begin
+      (match o with
+       | OHandOver (j, _, _) ->
+         (match zget pre.borrows j, zget obs.borrows j with
+          | Some b0, Some b1 -> if (not b0.b_liq) && b1.b_liq then begin bump "handover:handed_over"; interesting := true end else bump "handover:not_liquidatable"
+          | _ -> ())
+       | _ -> ())
+    end;
     if not (holds_C08_lend obs) then
-      predfail ~case:!case ~step:!step ~pred:"holds_C08_lend" ~kf:"none" ~detail:("after_" ^ kind);
+      predfail ~case:!case ~step:!step ~pred:"holds_C08_lend" ~kf:(if !tainted then "kf_C08_2" else "none") ~detail:("after_" ^ kind);
     if not (holds_C08_borrow !cfg obs) then
       predfail ~case:!case ~step:!step ~pred:"holds_C08_borrow" ~kf:"none" ~detail:("after_" ^ kind);
+    if not (holds_C08_avail obs) then
+      predfail ~case:!case ~step:!step ~pred:"holds_C08_avail" ~kf:"none" ~detail:("after_" ^ kind);
+    (* Side invariant (C08-F1 repaired): no position hangs on a lend position of another asset than its pair's asset in *)
+    L.iter (fun (j, _) ->
+        if mismatched_lend !cfg obs j then
+          predfail ~case:!case ~step:!step ~pred:"holds_C08_collateral_asset" ~kf:"none" ~detail:(kind ^ "_borrow=" ^ zs j)) obs.borrows;
     if res = "ok" then begin
-      let ltv_check j =
-        bump "ltv_checked";
-        if kf_C08_1 !cfg obs j then bump "ltv_checked:mismatched_lend";
-        if not (holds_C08_ltv !cfg obs j) then begin
-          let kf = if kf_C08_1 !cfg obs j then "kf_C08_1" else "none" in
-          predfail ~case:!case ~step:!step ~pred:"holds_C08_ltv" ~kf ~detail:(kind ^ "_borrow=" ^ zs j)
-        end in
+      let ltv_check pred name j =
+        bump ("ltv_checked:" ^ name);
+        if not (pred !cfg obs j) then
+          predfail ~case:!case ~step:!step ~pred:name ~kf:"none" ~detail:(kind ^ "_borrow=" ^ zs j) in
+      let pool_check pid amt =
+        if not (holds_C08_pool !cfg pre pid amt) then
+          predfail ~case:!case ~step:!step ~pred:"holds_C08_pool" ~kf:"none" ~detail:kind in
       (match o with
        | OBorrow (u, _, pid, _, _, _, _, aout, _, _) | OBorrowAlt (u, _, _, _, _, pid, _, _, aout, _, _, _, _) ->
-         (match borrow_id_for_pair obs u pid with
-          | Some j -> ltv_check j
-          | None -> predfail ~case:!case ~step:!step ~pred:"holds_C08_ltv" ~kf:"none" ~detail:"no_position_after_borrow");
-         if not (holds_C08_pool !cfg pre pid aout) then
-           predfail ~case:!case ~step:!step ~pred:"holds_C08_pool" ~kf:"none" ~detail:kind
+         let alt = (match o with OBorrowAlt _ -> true | _ -> false) in
+         if has_borrow_for_pair pre u pid then begin
+           (* DepositDraw on the existing position of this pair: the draw rule; the pool is checked at the release *)
+           (match borrow_id_for_pair pre u pid with
+            | Some j -> ltv_check holds_C08_ltv "holds_C08_ltv" j
+            | None -> predfail ~case:!case ~step:!step ~pred:"holds_C08_ltv" ~kf:"none" ~detail:"no_position_for_deposit_draw");
+           bump "pool_check:at_release_only"
+         end else begin
+           if obs.bctr = pre.bctr then
+             predfail ~case:!case ~step:!step ~pred:"holds_C08_ltv" ~kf:"none" ~detail:"no_position_after_borrow"
+           else ltv_check holds_C08_ltv_new "holds_C08_ltv_new" obs.bctr;
+           if alt then bump "pool_check:at_release_only" else pool_check pid aout
+         end
        | ODraw (_, j, _, amt, _) ->
-         ltv_check j;
+         ltv_check holds_C08_ltv "holds_C08_ltv" j;
          (match zget obs.borrows j with
-          | Some b -> if not (holds_C08_pool !cfg pre b.b_pair amt) then
-              predfail ~case:!case ~step:!step ~pred:"holds_C08_pool" ~kf:"none" ~detail:kind
+          | Some b -> pool_check b.b_pair amt
           | None -> ())
        | OWithdraw (_, lid, _, amt, _) ->
          if not (holds_C08_pledged pre obs lid amt) then
@@ -213,7 +237,7 @@ let run (path : string) =
       | "case" :: id :: _ ->
         end_case ();
         case := id; model := empty_state; pre_obs := empty_state; cur_obs := empty_state; pending := None;
-        have_init := false; step := 0; dead := false; interesting := false; Buffer.clear sig_
+        have_init := false; step := 0; dead := false; interesting := false; tainted := false; Buffer.clear sig_
       | "op" :: dt :: rest ->
         incr step; incr steps;
         let (kind, o, res) = parse_op rest in
